@@ -75,7 +75,7 @@ theorem inv_init (cfg : Cfg) : Inv cfg init := by
   constructor <;> simp [init]
 
 theorem inv_call (cfg : Cfg) (s : St) (h : Inv cfg s) (id k : Nat) :
-    Inv cfg { s with calls := s.calls ++ [⟨id, k, none⟩], next := id } := by
+    Inv cfg { s with calls := s.calls ++ [⟨id, k, none⟩], next := max s.next id, issued := s.issued ++ [(id, k)] } := by
   obtain ⟨hO, hM, hF, hP, hC⟩ := h
   refine ⟨?_, hM, hF, hP, ?_⟩
   · intro i o ho
@@ -384,9 +384,9 @@ theorem inv_step (cfg : Cfg) (s : St) (a : Act) (s' : St) (h : Inv cfg s)
   cases a with
   | call id k =>
     simp only [step] at hs
-    split at hs
-    · simp at hs; exact hs ▸ inv_call cfg s h id k
-    · simp at hs
+    by_cases hg : (if cfg.uniqueIds then s.next < id else id = ticket s k + 1)
+    · rw [if_pos hg] at hs; simp at hs; exact hs ▸ inv_call cfg s h id k
+    · rw [if_neg hg] at hs; simp at hs
   | getQueue id k =>
     simp only [step] at hs
     split at hs
@@ -424,6 +424,142 @@ theorem inv_step (cfg : Cfg) (s : St) (a : Act) (s' : St) (h : Inv cfg s)
     simp only [step] at hs
     split at hs
     · rename_i hi; simp at hs; exact hs ▸ inv_unmap cfg s h i hi
+    · simp at hs
+
+/-! ### Caller ids belong to the key they were issued for (globally unique ids) -/
+
+theorem rem_callers_subset (q : Q) (h : QInv q) (id x : Nat) (hx : x ∈ (q.rem qcfg id).1.callers) : x ∈ q.callers := by
+  rcases rem_cases qcfg qcfg_good q h id with ⟨_, e⟩ | ⟨_, e⟩ | ⟨y, ys, hq, e⟩ | ⟨a, t, hq, _, _, e⟩ <;> rw [e] at hx
+  · exact hx
+  · simp at hx
+  · rw [hq]; exact List.mem_cons_of_mem _ hx
+  · rw [hq]
+    rcases List.mem_cons.mp hx with e' | e'
+    · rw [e']; simp
+    · exact List.mem_cons_of_mem _ (List.mem_of_mem_erase e')
+
+theorem enq_callers (q : Q) (h : QInv q) (c : Nat) : (q.enq c).callers = q.callers ++ [c] := by
+  rw [enq_eq q h c]
+  cases hq : q.callers <;> simp
+
+structure IdInv (s : St) : Prop where
+  objIds : ∀ (i : Nat) (o : Obj), s.objs[i]? = some o → ∀ id ∈ o.q.callers, (id, o.key) ∈ s.issued
+  callIds : ∀ c ∈ s.calls, (c.id, c.key) ∈ s.issued
+  bound : ∀ p ∈ s.issued, p.1 ≤ s.next
+  func : ∀ id k k', (id, k) ∈ s.issued → (id, k') ∈ s.issued → k = k'
+
+theorem idinv_init : IdInv init := by
+  constructor <;> simp [init]
+
+theorem idinv_step (cfg : Cfg) (hu : cfg.uniqueIds = true) (s : St) (a : Act) (s' : St)
+    (hI : Inv cfg s) (hU : IdInv s) (hs : step cfg s a = some s') : IdInv s' := by
+  obtain ⟨hO, hC, hB, hF⟩ := hU
+  cases a with
+  | call id k =>
+    simp only [step, hu, if_true] at hs
+    split at hs
+    · rename_i hlt
+      simp at hs; subst hs
+      refine ⟨?_, ?_, ?_, ?_⟩
+      · intro i o ho x hx; exact List.mem_append_left _ (hO i o ho x hx)
+      · intro c hc
+        rcases List.mem_append.mp hc with hc | hc
+        · exact List.mem_append_left _ (hC c hc)
+        · simp at hc; subst hc; simp
+      · intro p hp
+        show p.1 ≤ max s.next id
+        rcases List.mem_append.mp hp with hp | hp
+        · have := hB p hp; omega
+        · simp at hp; subst hp; simp; omega
+      · intro x k1 k2 h1 h2
+        rcases List.mem_append.mp h1 with h1 | h1 <;> rcases List.mem_append.mp h2 with h2 | h2
+        · exact hF x k1 k2 h1 h2
+        · simp at h2; have := hB _ h1; simp at this; omega
+        · simp at h1; have := hB _ h2; simp at this; omega
+        · simp at h1 h2; rw [h1.2, h2.2]
+    · simp at hs
+  | getQueue id k =>
+    simp only [step] at hs
+    split at hs
+    · rename_i hm
+      have hid := hC _ hm
+      cases hl : s.map.lookup k with
+      | some i =>
+        simp only [hl] at hs; simp at hs; subst hs
+        refine ⟨hO, ?_, hB, hF⟩
+        intro c hc
+        rcases List.mem_append.mp hc with hc | hc
+        · exact hC c (List.mem_of_mem_erase hc)
+        · simp at hc; subst hc; exact hid
+      | none =>
+        simp only [hl] at hs; simp at hs; subst hs
+        refine ⟨?_, ?_, hB, hF⟩
+        · intro i o ho x hx
+          dsimp only at ho
+          rw [List.getElem?_append] at ho
+          split at ho
+          · exact hO i o ho x hx
+          · cases hj : i - s.objs.length with
+            | zero => rw [hj] at ho; simp at ho; subst ho; simp [Q.empty] at hx
+            | succ n => rw [hj] at ho; simp at ho
+        · intro c hc
+          rcases List.mem_append.mp hc with hc | hc
+          · exact hC c (List.mem_of_mem_erase hc)
+          · simp at hc; subst hc; exact hid
+    · simp at hs
+  | enqueue id k i =>
+    simp only [step] at hs
+    split at hs
+    · rename_i hm
+      have hid := hC _ hm
+      cases ho : s.objs[i]? with
+      | none => simp [ho] at hs
+      | some o =>
+        simp only [ho] at hs
+        have hkey : o.key = k := by
+          obtain ⟨o', ho', hk⟩ := hI.callPtr _ hm i rfl
+          rw [ho] at ho'; simp at ho'; subst ho'; exact hk
+        split at hs
+        · simp at hs; subst hs
+          refine ⟨hO, ?_, hB, hF⟩
+          intro c hc
+          rcases List.mem_append.mp hc with hc | hc
+          · exact hC c (List.mem_of_mem_erase hc)
+          · simp at hc; subst hc; exact hid
+        · simp at hs; subst hs
+          refine ⟨?_, ?_, hB, hF⟩
+          · intro j o' ho' x hx
+            rcases get_set _ _ _ _ _ ho' with ⟨_, he, _⟩ | ⟨_, hold⟩
+            · subst he
+              rw [enq_callers o.q (hI.obj i o ho).qinv id] at hx
+              rcases List.mem_append.mp hx with hx | hx
+              · exact hO i o ho x hx
+              · simp at hx; subst hx; show (x, o.key) ∈ s.issued; rw [hkey]; exact hid
+            · exact hO j o' hold x hx
+          · intro c hc; exact hC c (List.mem_of_mem_erase hc)
+    · simp at hs
+  | remove id i =>
+    simp only [step] at hs
+    cases ho : s.objs[i]? with
+    | none => simp [ho] at hs; subst hs; exact ⟨hO, hC, hB, hF⟩
+    | some o =>
+      simp only [ho] at hs
+      have sub := rem_callers_subset o.q (hI.obj i o ho).qinv id
+      split at hs <;> simp at hs <;> subst hs
+      · refine ⟨?_, hC, hB, hF⟩
+        intro j o' ho' x hx
+        rcases get_set _ _ _ _ _ ho' with ⟨_, he, _⟩ | ⟨_, hold⟩
+        · subst he; exact hO i o ho x (sub x hx)
+        · exact hO j o' hold x hx
+      · refine ⟨?_, hC, hB, hF⟩
+        intro j o' ho' x hx
+        rcases get_set _ _ _ _ _ ho' with ⟨_, he, _⟩ | ⟨_, hold⟩
+        · subst he; exact hO i o ho x (sub x hx)
+        · exact hO j o' hold x hx
+  | unmap i =>
+    simp only [step] at hs
+    split at hs
+    · simp at hs; subst hs; exact ⟨hO, hC, hB, hF⟩
     · simp at hs
 
 end Hv.LockMap
